@@ -183,6 +183,11 @@ func (r *Report) Finish(verifDir string, seed int) int {
 		cov["functions_in_program"] = len(r.P.Funcs)
 		cov["build_tags"] = r.P.Tags
 		cov["whole_program"] = r.P.Whole
+		rb := Rebindings
+		if rb == nil {
+			rb = []string{}
+		}
+		cov["anchor_rebindings"] = rb
 	}
 	for k, v := range r.Extra {
 		cov[k] = v
